@@ -22,19 +22,20 @@
 (***************************************************************************)
 EXTENDS Integers, Sequences, FiniteSets, TLC
 
-CONSTANTS NT, Faces, LocalFaces, Life, Dev
+CONSTANTS Faces, LocalFaces, Life, Dev
 
-VARIABLES now,    \* ticks
+VARIABLES nt,     \* number of forwarding threads (fixed during an execution)
+          now,    \* ticks
           hmap,   \* name -> thread, as learned from the dispatch of Interests
           pend,   \* <<thread, key, face>> -> [dtoks, exp] : unsatisfied in-records
           ent,    \* <<thread, key>> -> token of the PIT entry (as last observed)
           cs,     \* thread -> set of names cached there
           lastI,  \* tick of the latest Interest accepted
           ev
-svars == <<now, hmap, pend, ent, cs, lastI>>
+svars == <<nt, now, hmap, pend, ent, cs, lastI>>
 vars  == <<svars, ev>>
 
-Threads == 0..(NT - 1)
+Threads == 0..(nt - 1)
 Empty   == [x \in {} |-> 0]
 NoTok   == [thr |-> -1, tok |-> -1]
 IsPrefix(p, n) == Len(p) <= Len(n) /\ \A i \in 1..Len(p) : p[i] = n[i]
@@ -48,6 +49,8 @@ Key(n, cbp)    == [name |-> n, cbp |-> cbp]
 Satisfies(k, dn) == IsPrefix(k.name, dn) /\ (k.cbp \/ Len(k.name) = Len(dn))
 Alive(x)       == pend[x].exp >= now
 LiveEnts       == { <<x[1], x[2]>> : x \in { y \in DOMAIN pend : Alive(y) } }
+\* records the open finding "RootSkipped" is about: Interests with the empty name
+Exempt(x)      == "RootSkipped" \in Dev /\ x[2].name = <<>>
 
 (* =================== Interest arrives on face i.f ========================== *)
 \* i : [f, n, cbp, dtok]    o : [thr, etok, up, hit, D]
@@ -55,15 +58,15 @@ IEarly(i) == ~Local(i.f) /\ IsLocalhost(i.n)
 NodeInterest(i, o) ==
   LET key == Key(i.n, i.cbp)
       x   == <<o.thr, key, i.f>>
-      old == IF x \in DOMAIN pend /\ Alive(x) THEN pend[x].dtoks ELSE {}
+      old == IF x \in DOMAIN pend THEN pend[x].dtoks ELSE {}
   IN
   /\ ev' = [kind |-> "I", i |-> i, o |-> o]
   /\ hmap' = IF i.n \in DOMAIN hmap THEN hmap ELSE Ext(hmap, i.n, o.thr)
-  /\ IF IEarly(i) THEN UNCHANGED <<now, pend, ent, cs, lastI>>
+  /\ IF IEarly(i) THEN UNCHANGED <<nt, now, pend, ent, cs, lastI>>
      ELSE /\ ent' = Ext(ent, <<o.thr, key>>, o.etok)
           /\ pend' = IF o.hit THEN pend ELSE Ext(pend, x, [dtoks |-> old \cup {i.dtok}, exp |-> now + Life])
           /\ lastI' = now
-          /\ UNCHANGED <<now, cs>>
+          /\ UNCHANGED <<nt, now, cs>>
 
 \* the same name always reaches the same thread; /localhost goes to thread 0 (where management lives)
 NI_hash(i, o) == /\ o.thr \in Threads
@@ -82,6 +85,8 @@ NI_hit(i, o) ==
   ELSE IF o.hit THEN /\ \E nm \in cs[o.thr] : nm = i.n \/ (i.cbp /\ IsPrefix(i.n, nm))
                      /\ o.up = {}
                      /\ Len(o.D) <= 1 /\ \A k \in 1..Len(o.D) : o.D[k] = [face |-> i.f, tok |-> i.dtok]
+                     \* an answer found but not emitted is one the scope rule forbids on the requesting face
+                     /\ (Len(o.D) = 0 => \E nm \in cs[o.thr] : (nm = i.n \/ (i.cbp /\ IsPrefix(i.n, nm))) /\ ~ScopeOk(i.f, nm))
        ELSE o.D = <<>>
 NI_scope(i, o) == \A u \in o.up : ScopeOk(u.face, i.n) /\ u.face \in Faces
 
@@ -102,13 +107,13 @@ NodeData(d, o) ==
   /\ ev' = [kind |-> "D", i |-> d, o |-> o]
   /\ pend' = Drop(pend, consumed)
   /\ cs' = [t \in Threads |-> IF t \in TS /\ ~DEarly(d) THEN cs[t] \cup {d.n} ELSE cs[t]]
-  /\ UNCHANGED <<now, hmap, ent, lastI>>
+  /\ UNCHANGED <<nt, now, hmap, ent, lastI>>
 
 \* the Data is shown to every thread that holds a pending Interest it satisfies, once
 ND_dispatch(d, o) ==
   /\ \A a, b \in 1..Len(o.T) : a # b => o.T[a] # o.T[b]
   /\ SeqToSet(o.T) \subseteq Threads
-  /\ { x[1] : x \in { y \in Want(d) : Alive(y) } } \subseteq SeqToSet(o.T)
+  /\ { x[1] : x \in { y \in Want(d) : Alive(y) /\ ~(d.tk = NoTok /\ Exempt(y)) } } \subseteq SeqToSet(o.T)
 \* C01 for the node: per face, the copies are an injective choice of pending Interests the Data satisfies, each with a
 \* token that face supplied, and every alive one on another face (scope permitting) is among them
 ND_C01(d, o) ==
@@ -116,7 +121,7 @@ ND_C01(d, o) ==
       W  == Want(d)
       Copies(g)  == { k \in 1..Len(Dq) : Dq[k].face = g }
       Holders(g) == { x \in W : x[3] = g }
-      MustH(g)   == IF g = d.f \/ ~ScopeOk(g, d.n) THEN {} ELSE { x \in Holders(g) : Alive(x) }
+      MustH(g)   == IF g = d.f \/ ~ScopeOk(g, d.n) THEN {} ELSE { x \in Holders(g) : Alive(x) /\ ~(d.tk = NoTok /\ Exempt(x)) }
   IN /\ \A k \in 1..Len(Dq) : Dq[k].face \in Faces
      /\ \A g \in Faces :
           \E a \in [Copies(g) -> Holders(g)] :
@@ -127,22 +132,26 @@ ND_scope(d, o) == \A k \in 1..Len(o.D) : ScopeOk(o.D[k].face, d.n)
 
 (* =================== time ================================================== *)
 Tick == /\ now' = now + 1
-        /\ pend' = Drop(pend, { x \in DOMAIN pend : pend[x].exp < now + 1 })
+        \* an entry is reaped when its latest record has expired; until then its expired in-records stay in it
+        /\ pend' = Drop(pend, { x \in DOMAIN pend : \A y \in DOMAIN pend : (y[1] = x[1] /\ y[2] = x[2]) => pend[y].exp < now + 1 })
         /\ ev' = [kind |-> "T"]
-        /\ UNCHANGED <<hmap, ent, cs, lastI>>
+        /\ UNCHANGED <<nt, hmap, ent, cs, lastI>>
 \* q : thread -> number of PIT entries it reports.  Once every lifetime has elapsed no thread holds anything.
 Quiet(q) == ev' = [kind |-> "Q", q |-> q] /\ UNCHANGED svars
 NQ_C08(q) == (now > lastI + Life + 1) => \A t \in DOMAIN q : q[t] = 0
 
 (* =================== the dispatch as coded (witness for model checking) ==== *)
-\* H : name -> thread (the hash).  Prefix threads: of every non-empty prefix ("RootSkipped" is the code as shipped:
-\* fw/fw/thread.go HashNameToAllPrefixFwThreads starts at the one-component prefix).
+\* H : name -> thread (the hash).  Dev = {} is a dispatch that satisfies the statement for every name.
+\* "RootSkipped"       : HashNameToAllPrefixFwThreads starts at the one-component prefix and sends /localhost Data to
+\*                       thread 0 only, so a pending Interest with the EMPTY name is not shown token-less Data
+\*                       (open finding; the rules exempt exactly those records when this element is in Dev)
+\* "ExactOnlyNonLocal" : token-less Data from a non-local face reached the exact-name thread only (repaired)
 PrefixThreads(H, n) == { H[SubSeq(n, 1, k)] : k \in (IF "RootSkipped" \in Dev THEN 1 ELSE 0)..Len(n) }
 ImplT(H, d) ==
   IF d.tk # NoTok THEN (IF d.tk.thr \in Threads THEN {d.tk.thr} ELSE {})
-  ELSE IF IsLocalhost(d.n) THEN {0}
-  ELSE IF Local(d.f) \/ "ExactOnlyNonLocal" \notin Dev THEN PrefixThreads(H, d.n)
-  ELSE {H[d.n]}       \* as shipped: token-less Data from a non-local face reaches the exact-name thread only
+  ELSE IF ~Local(d.f) /\ "ExactOnlyNonLocal" \in Dev THEN {H[d.n]}
+  ELSE IF IsLocalhost(d.n) THEN {0} \cup (IF "RootSkipped" \in Dev THEN {} ELSE {H[<<>>]})
+  ELSE PrefixThreads(H, d.n)
 
 (* =================== properties ============================================ *)
 P_Node == [][/\ (ev'.kind = "I" => NI_hash(ev'.i, ev'.o) /\ NI_tok(ev'.i, ev'.o) /\ NI_hit(ev'.i, ev'.o) /\ NI_scope(ev'.i, ev'.o))
